@@ -213,11 +213,33 @@ pub fn j_doy(year: i32, day: u32, frac: f64, ts: TimeScale, out: &mut Local) {
 pub fn run(rep: &mut Report) {
     let q = rep.quick();
     let leap = LeapTable::load().expect("leap").0;
-    rep.rule = "weeks {0,1,2,1023,1024,2047,2048,5217..5219 (one century),170 000, MAX/week +-1, u32::MAX} x ns-of-week {0,1,day+-1,week-1,week,week+1,2^63,u64::MAX} x 9 scales through from_time_of_week (+ _utc) and back; to_time_of_week on the non-negative part of the epoch lattice x 9 scales; u64 counters {0,1,century-1,century,century+1,2^63,u64::MAX,...} x 4 GNSS scales; counter reads from the epoch lattice in 7 scales (negative and >= one century must be Err); (year, day of year) for 13 years (every year 0001-9999 thorough, every 7th day) x every whole day x fractions {0,1/4,1/2,0.999,0.99999,1-1e-9} x 9 scales. Non-trivial = non-canonical/saturating input, week boundary, count >= one century, first/last day of the year.".into();
+    rep.rule = "every week 0..=8192 (thorough 131 072), a geometric scan (ratio 1.25, +-1) of the rest up to MAX/week +-1, u32::MAX x ns-of-week {every day boundary 0..8 days +-1 ns and +12 h, every hour of the first day, 2^32+-1, 10^9, week+-1, 2^53+1, 2^63, u64::MAX} x 9 scales through from_time_of_week (+ _utc) and back; to_time_of_week on the non-negative part of the epoch lattice x 9 scales; u64 counters {0,1,century-1,century,century+1,2^63,u64::MAX,...} x 4 GNSS scales; counter reads from the epoch lattice in 7 scales (negative and >= one century must be Err); (year, day of year) for 13 years (every year 0001-9999 thorough, every 7th day) x every whole day x fractions {0,1/4,1/2,0.999,0.99999,1-1e-9} x 9 scales. Non-trivial = non-canonical/saturating input, week boundary, count >= one century, first/last day of the year.".into();
     rep.assumptions = vec!["negative counts are outside to_time_of_week's quantifier (don't-care)".into()];
     let max_w = (DMAX / WEEK) as u32;
-    let weeks: Vec<u32> = vec![0, 1, 2, 1023, 1024, 2047, 2048, 5217, 5218, 5219, 170_000, max_w - 1, max_w, max_w + 1, u32::MAX];
-    let nss: Vec<u64> = vec![0, 1, NS_DAY as u64 - 1, NS_DAY as u64, NS_DAY as u64 + 1, WEEK as u64 - 1, WEEK as u64, WEEK as u64 + 1, 1 << 63, u64::MAX, 123_456_789_012_345];
+    let mut weeks: Vec<u32> = vec![0, 1, 2, 1023, 1024, 2047, 2048, 5217, 5218, 5219, 170_000, max_w - 1, max_w, max_w + 1, u32::MAX];
+    // every week number a receiver can report for the next century and a half (all 10- and 13-bit roll-overs included),
+    // and a geometric scan of the rest of the range
+    weeks.extend(0..=if q { 8_192 } else { 131_072 });
+    let mut g: u64 = 8_192;
+    while g < max_w as u64 {
+        weeks.extend([g as u32 - 1, g as u32, g as u32 + 1]);
+        g = g * 5 / 4 + 1;
+    }
+    weeks.sort();
+    weeks.dedup();
+    let mut nss: Vec<u64> = vec![0, 1, NS_DAY as u64 - 1, NS_DAY as u64, NS_DAY as u64 + 1, WEEK as u64 - 1, WEEK as u64, WEEK as u64 + 1, 1 << 63, u64::MAX, 123_456_789_012_345];
+    // every day boundary of the week and every hour of the first day, each +- 1 ns, and the 32-bit boundaries of the count
+    for d in 0..=8u64 {
+        for o in [-1i64, 0, 1, 43_200_000_000_000] {
+            nss.push((d * NS_DAY as u64).wrapping_add(o as u64));
+        }
+    }
+    for h in 1..24u64 {
+        nss.extend([h * 3_600_000_000_000 - 1, h * 3_600_000_000_000]);
+    }
+    nss.extend([(1u64 << 32) - 1, 1 << 32, (1 << 32) + 1, 999_999_999, 1_000_000_000, (1 << 53) + 1]);
+    nss.sort();
+    nss.dedup();
     let (nw, nn) = (weeks.len() as u64, nss.len() as u64);
     sweep(rep, "c20.from_tow", nw * nn * 9, |i, out| j_from_tow(weeks[(i / (nn * 9)) as usize], nss[((i / 9) % nn) as usize], SCALES[(i % 9) as usize], out));
     for ts in SCALES {
